@@ -276,7 +276,7 @@ thread_local! {
 /// pool; building one per case keeps about 10 MB per pool resident (thousands of cases in the thorough tier exhausted
 /// the memory), so one pristine engine per (mode, threads) is kept and CLONED — a clone of a pristine engine is a
 /// pristine engine, sharing the pool.  ONLY for engines that are used strictly one after the other: two LIVE clones
-/// of one e-graph share the bridge's name-indexed action registry (defect 18, a known finding of C08), so engines that
+/// of one e-graph shared the bridge's name-indexed action registry (defect 18 of C08, repaired in /repo), and engines that
 /// must coexist (semi-naive next to naive, …) are still built separately.
 pub fn fresh(mode: &str, threads: usize) -> egglog::EGraph {
     BASES.with(|b| b.borrow_mut().entry((mode.to_string(), threads)).or_insert_with(|| match mode {
